@@ -257,3 +257,17 @@ Proof.
   inversion Hw2 as [n2 t2 v2 Hl2 Hw3| | | | | | | | | | | | | | | | | | | | | | | | | | |]; subst. rewrite Henvn in Hl2. injection Hl2 as <-.
   inversion Hw3; subst. assumption.
 Qed.
+
+Theorem from_obj_envelope_entries env hn H u5 fs jl jd sev sp sd root n name envn em emb f o ents :
+  env_wf env = true -> lookup root env = Some (TTag n name (TRef envn)) -> lookup envn env = Some (TKeyValue em emb) ->
+  from_obj env hn H u5 fs jl jd sev sp sd f (TRef root) o = Ok (VTagged (VKV ents)) ->
+  forall p, In p ents -> exists e, nth_error em (fst p) = Some e /\ wt env (key_ty e) (snd p).
+Proof.
+  intros Henv Hroot Henvn E.
+  assert (Hb : wf env (TRef root) = true) by (cbn [wf]; unfold bound; rewrite Hroot; reflexivity).
+  pose proof (from_obj_wt env hn H u5 fs jl jd sev sp sd Henv f (TRef root) o Hb) as Hw. rewrite E in Hw. cbn [wtR] in Hw.
+  inversion Hw as [n0 t0 v0 Hl Hw1| | | | | | | | | | | | | | | | | | | | | | | | | | |]; subst. rewrite Hroot in Hl. injection Hl as <-.
+  inversion Hw1 as [| | | | | | | | | | | | | | | | | | | | | | | | | | |n1 nm1 t1 v1 Hw2]; subst.
+  inversion Hw2 as [n2 t2 v2 Hl2 Hw3| | | | | | | | | | | | | | | | | | | | | | | | | | |]; subst. rewrite Henvn in Hl2. injection Hl2 as <-.
+  inversion Hw3; subst. assumption.
+Qed.
